@@ -10,7 +10,7 @@ ASSUMPTIONS = ["stream distinctness beyond the initial state is proved only wher
 
 
 def seeds(r, n):
-    base = [0, 1, 2, C.M64, C.M64 - 1, 1 << 63, (1 << 63) - 1, 0x5555555555555555, 0xAAAAAAAAAAAAAAAA, 0x0123456789ABCDEF,
+    base = [0, 1, 2, 3, 4, 5, 7, 8, 15, 16, C.M64, C.M64 - 1, 1 << 63, (1 << 63) - 1, 0x5555555555555555, 0xAAAAAAAAAAAAAAAA, 0x0123456789ABCDEF,
             0x61c8864680b583eb, 0xc3910c8d016b07d6, 0x9e3779b97f4a7c15, (-0x9e3779b97f4a7c15) & C.M64, (-2 * 0x9e3779b97f4a7c15) & C.M64]
     base += [1 << k for k in range(0, 64, 3)] + [(1 << k) - 1 for k in range(2, 64, 5)]
     return base + [r.u64() for _ in range(n)] + [r.edge64() for _ in range(n)]
@@ -22,6 +22,7 @@ def generate(r, tier, build):
     for s in seeds(r, 150 * k):
         reqs.append("word gen=xoshiro seed=%d via=%s ops=u64,u32" % (s, r.choice(["from_seed", "seeded"])))
         reqs.append("word gen=xoshiro seed=%d via=from_seed ops=" % s)
+        reqs.append("word gen=xoshiro seed=%d via=seeded ops=u64,u64,u32" % s)
         reqs.append("word gen=splitmix seed=%d via=from_seed ops=u64" % s)
         reqs.append("word gen=wyrand seed=%d via=from_seed ops=u64" % s)
         reqs.append("word gen=splitmix seed=%d via=from_seed ops=" % s)
@@ -62,6 +63,14 @@ def oracle(req, impl, build):
         other = _seen.setdefault(key, seed)
         if other != seed:
             return "seeds %s and %s give the same ChaCha key" % (other, seed)
+    if kind == "xoshiro" and "via=seeded" in req and req.endswith("ops=u64,u64,u32"):
+        # urandom::seeded returns an opaque generator: its state cannot be read, its stream can. Two seeds with the same first 160 bits of
+        # output have the same stream (the generator is deterministic in its state; a chance collision has probability 2^-160)
+        outs = " ".join(t for t in impl.split() if not t.startswith("st:"))
+        key = (build, "seeded-stream", outs)
+        other = _seen.setdefault(key, seed)
+        if other != seed:
+            return "urandom::seeded(%s) and urandom::seeded(%s) produce the same stream (%s ...)" % (other, seed, outs[:60])
     if kind in ("xoshiro", "splitmix", "wyrand") and req.endswith("ops="):
         key = (build, kind, st)
         other = _seen.setdefault(key, seed)
